@@ -6,7 +6,9 @@ package xreceive
 // is readable from the node GetN returns); per config no tenant list (nil or empty = default ring), an
 // exact list (matcher type "" or "exact"; may contain glob-looking strings, which must be taken
 // literally) or a glob list (well-formed patterns over a small alphabet: literals, * ? [ab] [a-c] [^a]);
-// queried tenants: generated names, list entries, pattern strings taken literally.
+// queried tenants: generated names, list entries, pattern strings taken literally. Names and patterns
+// are ASCII: filepath.Match advances byte-wise after '*', so "*??" matches the single 3-byte character
+// "\u79df" - a property of Go's glob dialect, not of the routing (found as a false alarm of this check).
 // Oracle: an independent matcher (own glob implementation). Let E = first config in order whose list
 // matches, D = first list-less config, O = first config in order that is list-less or matches.
 //   * no E and no D            => GetN must fail;
@@ -267,7 +269,7 @@ func c27Check(c c27Case) (string, bool, []string) {
 }
 
 func c27GenName(rt *rapid.T, label string) string {
-	return rapid.SampledFrom([]string{"a", "b", "ab", "abc", "ba", "c", "team-a", "team-b", "team-ab", "", "a-", "租"}).Draw(rt, label)
+	return rapid.SampledFrom([]string{"a", "b", "ab", "abc", "ba", "c", "team-a", "team-b", "team-ab", "", "a-", "abcabc"}).Draw(rt, label)
 }
 
 func c27GenPattern(rt *rapid.T, label string) string {
@@ -333,6 +335,9 @@ func TestVerifC27(t *testing.T) {
 			rings: []c27Ring{{kind: "exact", list: []string{"tenant2"}}, {kind: "glob", list: []string{"prefix*"}}, {kind: "glob", list: []string{"t1-*", "t2", "t3-*"}}, {kind: "default", emptyNil: true}}},
 		{global: receive.AlgorithmKetama, tenants: []string{"tenant1", "tenant4", "[a-c]", "b"},
 			rings: []c27Ring{{kind: "exact", typeSet: true, list: []string{"tenant1"}}, {kind: "exact", list: []string{"[a-c]"}}, {kind: "glob", list: []string{"[a-c]"}}}},
+	}
+	if !fixedInputs("C27") {
+		fixed = nil
 	}
 	for i, c := range fixed {
 		msg, nt, classes := c27Check(c)
